@@ -170,7 +170,7 @@ def render_cfg(template_path, out_path, consts):
 
 
 def tlc(spec_dir, module, cfg, consts=None, workers=8, timeout=600, edges=True, simulate=None, depth=None,
-        seed=None, extra=(), heap="8g", keep_out=False, dump_trace=True, edge_limit=None, jvm=()):
+        seed=None, extra=(), heap="8g", keep_out=False, dump_trace=True, edge_limit=None, jvm=(), extra_files=()):
     """Run TLC on spec_dir/module.tla with spec_dir/cfg(.in) in a scratch copy.  Lines printed by the
     spec as "EDGE {json}" / "INIT {json}" are collected (the labelled state graph)."""
     work = scratch("tlc")
@@ -187,6 +187,8 @@ def tlc(spec_dir, module, cfg, consts=None, workers=8, timeout=600, edges=True, 
                 for k, v in (consts or {}).items():
                     src = src.replace("${%s}" % k, str(v))
             open(os.path.join(work, fn), "w").write(src)
+    for fpath in extra_files:
+        shutil.copy(fpath, work)
     cfg_src = os.path.join(spec_dir, cfg)
     cfg_dst = os.path.join(work, module + ".cfg")
     render_cfg(cfg_src, cfg_dst, consts or {})
@@ -227,7 +229,8 @@ def tlc(spec_dir, module, cfg, consts=None, workers=8, timeout=600, edges=True, 
                     r.inits.append(json.loads(json.loads(line)[5:]))
             else:
                 keep.append(line)
-                if ("is violated" in line or "was violated" in line or "were violated" in line or "Deadlock reached" in line) and len(flagged) < 20:
+                if ("is violated" in line or "was violated" in line or "were violated" in line or "Deadlock reached" in line
+                        or ("Postcondition" in line and "is false" in line) or line.startswith('<<"TRACE-HW"')) and len(flagged) < 20:
                     flagged.append(line)
     r.nedges = nedges
     r.out = "".join(flagged) + ("".join(keep[-400:]) if not keep_out else "".join(keep))
@@ -246,6 +249,9 @@ def tlc(spec_dir, module, cfg, consts=None, workers=8, timeout=600, edges=True, 
           or re.search(r"Temporal properties were violated", r.out))
     if m2 and not r.violation:
         r.violation = m2.group(1) if m2.lastindex else "temporal"
+    mp = re.search(r"Postcondition (\S+) .*is false", r.out)
+    if mp and not r.violation:
+        r.violation = mp.group(1)
     if "Deadlock reached" in r.out and not r.violation:
         r.violation = "Deadlock"
     if r.violation and os.path.exists(tracefile):
